@@ -1,7 +1,245 @@
-From Coq Require Import Reals ZArith List Lra Lia Bool.
-From LibaV Require Import Common.NumOps Common.ROps C14.TrapDefs.
+(* C14, trapezoidal velocity profile: evaluation layer (from the well-formedness predicate WFtrap alone) and planning
+   layer (a_trajtrap_gen returning t > 0 on a feasible request produces a well-formed context). Real-number instance. *)
+From Coq Require Import Reals ZArith List Lra Lia Bool Psatz.
+From Coquelicot Require Import Coquelicot.
+From LibaV Require Import Common.NumOps Common.ROps C14.TrapDefs C14.DeriveGlue.
 Import ListNotations.
 Local Open Scope R_scope.
 
+Notation trapR := (trap R).
+
+Lemma half_R : half R_ops = / 2.
+Proof. unfold half. cbn. change (Pos.to_nat 1) with 1%nat. lra. Qed.
+
 Lemma sat_range x lo hi : lo <= hi -> lo <= sat R_ops x lo hi <= hi.
 Proof. intros H. unfold sat. unfold_ops. rcases; lra. Qed.
+
+Lemma sat_id x lo hi : lo <= x <= hi -> sat R_ops x lo hi = x.
+Proof. intros H. unfold sat. unfold_ops. rcases; lra. Qed.
+
+(* ------------------------------------------------------------------------------------------------ well-formedness *)
+(* vm is the (non-negative) velocity limit; it is not stored in the context *)
+Record WFtrap (vm : R) (c : trapR) : Prop := {
+  wf_ta : 0 <= t_ta c;
+  wf_td : t_ta c <= t_td c;
+  wf_t  : t_td c <= t_t c;
+  wf_vc : t_vc c = t_v0 c + t_ac c * t_ta c;
+  wf_pa : t_pa c = t_p0 c + t_v0 c * t_ta c + t_ac c * (t_ta c)² / 2;
+  wf_pd : t_pd c = t_pa c + t_vc c * (t_td c - t_ta c);
+  wf_v1 : t_v1 c = t_vc c + t_de c * (t_t c - t_td c);
+  wf_p1 : t_p1 c = t_pd c + t_vc c * (t_t c - t_td c) + t_de c * (t_t c - t_td c)² / 2;
+  wf_lv0 : Rabs (t_v0 c) <= vm;
+  wf_lvc : Rabs (t_vc c) <= vm;
+  wf_lv1 : Rabs (t_v1 c) <= vm }.
+
+(* the three polynomial pieces *)
+Definition P1 (c : trapR) (x : R) := t_p0 c + t_v0 c * x + t_ac c * x² / 2.
+Definition P2 (c : trapR) (x : R) := t_pa c + t_vc c * (x - t_ta c).
+Definition P3 (c : trapR) (x : R) := t_pd c + t_vc c * (x - t_td c) + t_de c * (x - t_td c)² / 2.
+Definition V1 (c : trapR) (x : R) := t_v0 c + t_ac c * x.
+Definition V2 (c : trapR) (x : R) := t_vc c.
+Definition V3 (c : trapR) (x : R) := t_vc c + t_de c * (x - t_td c).
+
+Ltac try_eq a b := try (assert (a = b) by lra; (subst a || subst b)).
+
+(* open a well-formed context into variables and substitute the hand-over equations *)
+Ltac open_wf c H :=
+  destruct c as [t p0 p1 v0 v1 vc ta td pa pd ac de];
+  destruct H as [Hta Htd Ht Hvc Hpa Hpd Hv1 Hp1 Hl0 Hlc Hl1];
+  cbn [t_t t_p0 t_p1 t_v0 t_v1 t_vc t_ta t_td t_pa t_pd t_ac t_de] in *.
+
+Ltac collapse x t ta td :=
+  try_eq x 0; try_eq x ta; try_eq x td; try_eq x t; try_eq ta 0; try_eq td ta; try_eq t td; try_eq td 0; try_eq t 0; try_eq t ta.
+
+Ltac piece_tac x t ta td :=
+  unfold_ops; rewrite ?half_R; unfold Rsqr in *; rcases;
+  try lra; collapse x t ta td; subst; try lra; try (field_simplify; lra); try nra.
+
+(* pos and vel coincide with the polynomial pieces on the CLOSED phase intervals: continuity at every phase boundary *)
+Lemma trap_pos_piece1 vm c x : WFtrap vm c -> 0 <= x <= t_ta c -> trap_pos R_ops c x = P1 c x.
+Proof. intros H Hx. open_wf c H. unfold trap_pos, P1; cbn [t_t t_p0 t_p1 t_v0 t_v1 t_vc t_ta t_td t_pa t_pd t_ac t_de]. piece_tac x t ta td. Qed.
+Lemma trap_pos_piece2 vm c x : WFtrap vm c -> t_ta c <= x <= t_td c -> trap_pos R_ops c x = P2 c x.
+Proof. intros H Hx. open_wf c H. unfold trap_pos, P2; cbn [t_t t_p0 t_p1 t_v0 t_v1 t_vc t_ta t_td t_pa t_pd t_ac t_de]. piece_tac x t ta td. Qed.
+Lemma trap_pos_piece3 vm c x : WFtrap vm c -> t_td c <= x <= t_t c -> trap_pos R_ops c x = P3 c x.
+Proof. intros H Hx. open_wf c H. unfold trap_pos, P3; cbn [t_t t_p0 t_p1 t_v0 t_v1 t_vc t_ta t_td t_pa t_pd t_ac t_de]. piece_tac x t ta td. Qed.
+Lemma trap_vel_piece1 vm c x : WFtrap vm c -> 0 <= x <= t_ta c -> trap_vel R_ops c x = V1 c x.
+Proof. intros H Hx. open_wf c H. unfold trap_vel, V1; cbn [t_t t_p0 t_p1 t_v0 t_v1 t_vc t_ta t_td t_pa t_pd t_ac t_de]. piece_tac x t ta td. Qed.
+Lemma trap_vel_piece2 vm c x : WFtrap vm c -> t_ta c <= x <= t_td c -> trap_vel R_ops c x = V2 c x.
+Proof. intros H Hx. open_wf c H. unfold trap_vel, V2; cbn [t_t t_p0 t_p1 t_v0 t_v1 t_vc t_ta t_td t_pa t_pd t_ac t_de]. piece_tac x t ta td. Qed.
+Lemma trap_vel_piece3 vm c x : WFtrap vm c -> t_td c <= x <= t_t c -> trap_vel R_ops c x = V3 c x.
+Proof. intros H Hx. open_wf c H. unfold trap_vel, V3; cbn [t_t t_p0 t_p1 t_v0 t_v1 t_vc t_ta t_td t_pa t_pd t_ac t_de]. piece_tac x t ta td. Qed.
+
+Ltac tcbn := cbn [t_t t_p0 t_p1 t_v0 t_v1 t_vc t_ta t_td t_pa t_pd t_ac t_de] in *.
+
+(* queries before the start / after the end hold the boundary state (no well-formedness needed beyond 0 <= ta <= td <= t) *)
+Lemma trap_hold_before vm c x : WFtrap vm c -> x <= 0 ->
+  trap_pos R_ops c x = t_p0 c /\ trap_vel R_ops c x = t_v0 c.
+Proof.
+  intros H Hx. open_wf c H. unfold trap_pos, trap_vel; tcbn.
+  split; piece_tac x t ta td.
+Qed.
+
+Lemma trap_hold_after vm c x : WFtrap vm c -> t_t c <= x ->
+  trap_pos R_ops c x = t_p1 c /\ trap_vel R_ops c x = t_v1 c.
+Proof.
+  intros H Hx. open_wf c H. unfold trap_pos, trap_vel; tcbn.
+  split; piece_tac x t ta td.
+Qed.
+
+(* start and end state *)
+Lemma trap_start_end vm c : WFtrap vm c ->
+  trap_pos R_ops c 0 = t_p0 c /\ trap_vel R_ops c 0 = t_v0 c /\
+  trap_pos R_ops c (t_t c) = t_p1 c /\ trap_vel R_ops c (t_t c) = t_v1 c.
+Proof.
+  intros H. destruct (trap_hold_before vm c 0 H (Rle_refl _)) as [A B].
+  destruct (trap_hold_after vm c (t_t c) H (Rle_refl _)) as [C D]. auto.
+Qed.
+
+(* every query falls in one of the five closed regions *)
+Lemma trap_regions vm c x : WFtrap vm c ->
+  x <= 0 \/ 0 <= x <= t_ta c \/ t_ta c <= x <= t_td c \/ t_td c <= x <= t_t c \/ t_t c <= x.
+Proof. intros [H1 H2 H3 _ _ _ _ _ _ _ _]. lra. Qed.
+
+Lemma Rabs_between a b x m : Rabs a <= m -> Rabs b <= m -> (a <= x <= b \/ b <= x <= a) -> Rabs x <= m.
+Proof.
+  intros Ha Hb Hx. apply Rabs_le. apply Rabs_le_between in Ha. apply Rabs_le_between in Hb. lra.
+Qed.
+
+(* the speed never exceeds the limit, at any query time *)
+Lemma trap_vel_bound vm c x : WFtrap vm c -> Rabs (trap_vel R_ops c x) <= vm.
+Proof.
+  intros H. destruct (trap_regions vm c x H) as [R|[R|[R|[R|R]]]].
+  - destruct (trap_hold_before vm c x H R) as [_ ->]. apply H.
+  - rewrite (trap_vel_piece1 vm c x H R). unfold V1.
+    apply (Rabs_between (t_v0 c) (t_vc c)); [apply H|apply H|]. rewrite (wf_vc _ _ H).
+    destruct (Rle_dec 0 (t_ac c)); [left|right]; nra.
+  - rewrite (trap_vel_piece2 vm c x H R). apply H.
+  - rewrite (trap_vel_piece3 vm c x H R). unfold V3.
+    apply (Rabs_between (t_vc c) (t_v1 c)); [apply H|apply H|]. rewrite (wf_v1 _ _ H).
+    destruct (Rle_dec 0 (t_de c)); [left|right]; nra.
+  - destruct (trap_hold_after vm c x H R) as [_ ->]. apply H.
+Qed.
+
+(* the acceleration output is one of ac, de, 0; inside the phases it is the slope of the velocity piece *)
+Lemma trap_acc_values c x : trap_acc R_ops c x = t_ac c \/ trap_acc R_ops c x = t_de c \/ trap_acc R_ops c x = 0.
+Proof. unfold trap_acc. unfold_ops. rcases; auto. Qed.
+
+Lemma trap_acc_phases vm c x : WFtrap vm c ->
+  (0 <= x < t_ta c -> trap_acc R_ops c x = t_ac c) /\
+  (t_ta c <= x < t_td c -> trap_acc R_ops c x = 0) /\
+  (t_td c <= x <= t_t c -> t_ta c <= x -> trap_acc R_ops c x = t_de c) /\
+  (x < 0 \/ t_t c < x -> trap_acc R_ops c x = 0).
+Proof.
+  intros H. open_wf c H. unfold trap_acc; tcbn. unfold_ops.
+  repeat split; intros; rcases; lra.
+Qed.
+
+(* each velocity piece is the derivative of its position piece (polynomial identities) *)
+Lemma P1_derive c x : is_derive (P1 c) x (V1 c x).
+Proof. unfold P1, V1, Rsqr. auto_derive; [exact I|field]. Qed.
+Lemma P2_derive c x : is_derive (P2 c) x (V2 c x).
+Proof. unfold P2, V2. auto_derive; [exact I|field]. Qed.
+Lemma P3_derive c x : is_derive (P3 c) x (V3 c x).
+Proof. unfold P3, V3, Rsqr. auto_derive; [exact I|field]. Qed.
+Lemma V1_derive c x : is_derive (V1 c) x (t_ac c).
+Proof. unfold V1. auto_derive; [exact I|field]. Qed.
+Lemma V2_derive c x : is_derive (V2 c) x 0.
+Proof. unfold V2. auto_derive; [exact I|field]. Qed.
+Lemma V3_derive c x : is_derive (V3 c) x (t_de c).
+Proof. unfold V3. auto_derive; [exact I|field]. Qed.
+
+(* left and right pieces at a point strictly inside (0, t) *)
+Lemma trap_left_piece vm c x : WFtrap vm c -> 0 < x <= t_t c ->
+  exists P V, (exists d, 0 < d /\ forall y, x - d < y <= x -> trap_pos R_ops c y = P y) /\ is_derive P x (V x) /\
+              trap_vel R_ops c x = V x.
+Proof.
+  intros H Hx. pose proof (wf_ta _ _ H). pose proof (wf_td _ _ H). pose proof (wf_t _ _ H).
+  destruct (Rle_dec x (t_ta c)); [|destruct (Rle_dec x (t_td c))].
+  - exists (P1 c), (V1 c). split; [|split; [apply P1_derive|apply (trap_vel_piece1 vm); [assumption|lra]]].
+    exists x. split; [lra|]. intros y Hy. apply (trap_pos_piece1 vm); [assumption|lra].
+  - exists (P2 c), (V2 c). split; [|split; [apply P2_derive|apply (trap_vel_piece2 vm); [assumption|lra]]].
+    exists (x - t_ta c). split; [lra|]. intros y Hy. apply (trap_pos_piece2 vm); [assumption|lra].
+  - exists (P3 c), (V3 c). split; [|split; [apply P3_derive|apply (trap_vel_piece3 vm); [assumption|lra]]].
+    exists (x - t_td c). split; [lra|]. intros y Hy. apply (trap_pos_piece3 vm); [assumption|lra].
+Qed.
+
+Lemma trap_right_piece vm c x : WFtrap vm c -> 0 <= x < t_t c ->
+  exists P V, (exists d, 0 < d /\ forall y, x <= y < x + d -> trap_pos R_ops c y = P y) /\ is_derive P x (V x) /\
+              trap_vel R_ops c x = V x.
+Proof.
+  intros H Hx. pose proof (wf_ta _ _ H). pose proof (wf_td _ _ H). pose proof (wf_t _ _ H).
+  destruct (Rlt_dec x (t_ta c)); [|destruct (Rlt_dec x (t_td c))].
+  - exists (P1 c), (V1 c). split; [|split; [apply P1_derive|apply (trap_vel_piece1 vm); [assumption|lra]]].
+    exists (t_ta c - x). split; [lra|]. intros y Hy. apply (trap_pos_piece1 vm); [assumption|lra].
+  - exists (P2 c), (V2 c). split; [|split; [apply P2_derive|apply (trap_vel_piece2 vm); [assumption|lra]]].
+    exists (t_td c - x). split; [lra|]. intros y Hy. apply (trap_pos_piece2 vm); [assumption|lra].
+  - exists (P3 c), (V3 c). split; [|split; [apply P3_derive|apply (trap_vel_piece3 vm); [assumption|lra]]].
+    exists (t_t c - x). split; [lra|]. intros y Hy. apply (trap_pos_piece3 vm); [assumption|lra].
+Qed.
+
+(* the velocity output is the derivative of the position output at every instant strictly inside the motion *)
+Theorem trap_vel_is_derivative vm c x : WFtrap vm c -> 0 < x < t_t c ->
+  is_derive (trap_pos R_ops c) x (trap_vel R_ops c x).
+Proof.
+  intros H Hx.
+  destruct (trap_left_piece vm c x H) as (Pl & Vl & HL & DL & EL); [lra|].
+  destruct (trap_right_piece vm c x H) as (Pr & Vr & HR & DR & ER); [lra|].
+  apply (is_derive_glue _ Pl Pr); try assumption.
+  - rewrite EL. exact DL.
+  - rewrite ER. exact DR.
+Qed.
+
+(* position and velocity outputs are continuous functions of the query time on the whole real line *)
+Lemma cont_of_derive (P : R -> R) x l : is_derive P x l -> continuous P x.
+Proof. intros D. apply (ex_derive_continuous P x). exists l. exact D. Qed.
+
+Lemma trap_left_cont vm c x : WFtrap vm c ->
+  exists P V, (exists d, 0 < d /\ forall y, x - d < y <= x -> trap_pos R_ops c y = P y /\ trap_vel R_ops c y = V y) /\
+              continuous P x /\ continuous V x.
+Proof.
+  intros H. pose proof (wf_ta _ _ H). pose proof (wf_td _ _ H). pose proof (wf_t _ _ H).
+  destruct (Rle_dec x 0); [|destruct (Rle_dec x (t_ta c)); [|destruct (Rle_dec x (t_td c)); [|destruct (Rle_dec x (t_t c))]]].
+  - exists (fun _ => t_p0 c), (fun _ => t_v0 c). split; [|split; apply continuous_const].
+    exists 1. split; [lra|]. intros y Hy. apply (trap_hold_before vm); [assumption|lra].
+  - exists (P1 c), (V1 c). split; [|split; [apply (cont_of_derive _ _ _ (P1_derive c x))|apply (cont_of_derive _ _ _ (V1_derive c x))]].
+    exists x. split; [lra|]. intros y Hy. split; [apply (trap_pos_piece1 vm)|apply (trap_vel_piece1 vm)]; try assumption; lra.
+  - exists (P2 c), (V2 c). split; [|split; [apply (cont_of_derive _ _ _ (P2_derive c x))|apply (cont_of_derive _ _ _ (V2_derive c x))]].
+    exists (x - t_ta c). split; [lra|]. intros y Hy. split; [apply (trap_pos_piece2 vm)|apply (trap_vel_piece2 vm)]; try assumption; lra.
+  - exists (P3 c), (V3 c). split; [|split; [apply (cont_of_derive _ _ _ (P3_derive c x))|apply (cont_of_derive _ _ _ (V3_derive c x))]].
+    exists (x - t_td c). split; [lra|]. intros y Hy. split; [apply (trap_pos_piece3 vm)|apply (trap_vel_piece3 vm)]; try assumption; lra.
+  - exists (fun _ => t_p1 c), (fun _ => t_v1 c). split; [|split; apply continuous_const].
+    exists (x - t_t c). split; [lra|]. intros y Hy. apply (trap_hold_after vm); [assumption|lra].
+Qed.
+
+Lemma trap_right_cont vm c x : WFtrap vm c ->
+  exists P V, (exists d, 0 < d /\ forall y, x <= y < x + d -> trap_pos R_ops c y = P y /\ trap_vel R_ops c y = V y) /\
+              continuous P x /\ continuous V x.
+Proof.
+  intros H. pose proof (wf_ta _ _ H). pose proof (wf_td _ _ H). pose proof (wf_t _ _ H).
+  destruct (Rlt_dec x 0); [|destruct (Rlt_dec x (t_ta c)); [|destruct (Rlt_dec x (t_td c)); [|destruct (Rlt_dec x (t_t c))]]].
+  - exists (fun _ => t_p0 c), (fun _ => t_v0 c). split; [|split; apply continuous_const].
+    exists (- x). split; [lra|]. intros y Hy. apply (trap_hold_before vm); [assumption|lra].
+  - exists (P1 c), (V1 c). split; [|split; [apply (cont_of_derive _ _ _ (P1_derive c x))|apply (cont_of_derive _ _ _ (V1_derive c x))]].
+    exists (t_ta c - x). split; [lra|]. intros y Hy. split; [apply (trap_pos_piece1 vm)|apply (trap_vel_piece1 vm)]; try assumption; lra.
+  - exists (P2 c), (V2 c). split; [|split; [apply (cont_of_derive _ _ _ (P2_derive c x))|apply (cont_of_derive _ _ _ (V2_derive c x))]].
+    exists (t_td c - x). split; [lra|]. intros y Hy. split; [apply (trap_pos_piece2 vm)|apply (trap_vel_piece2 vm)]; try assumption; lra.
+  - exists (P3 c), (V3 c). split; [|split; [apply (cont_of_derive _ _ _ (P3_derive c x))|apply (cont_of_derive _ _ _ (V3_derive c x))]].
+    exists (t_t c - x). split; [lra|]. intros y Hy. split; [apply (trap_pos_piece3 vm)|apply (trap_vel_piece3 vm)]; try assumption; lra.
+  - exists (fun _ => t_p1 c), (fun _ => t_v1 c). split; [|split; apply continuous_const].
+    exists 1. split; [lra|]. intros y Hy. apply (trap_hold_after vm); [assumption|lra].
+Qed.
+
+Theorem trap_continuous vm c x : WFtrap vm c ->
+  continuous (trap_pos R_ops c) x /\ continuous (trap_vel R_ops c) x.
+Proof.
+  intros H.
+  destruct (trap_left_cont vm c x H) as (Pl & Vl & (dl & Hdl & HL) & CPl & CVl).
+  destruct (trap_right_cont vm c x H) as (Pr & Vr & (dr & Hdr & HR) & CPr & CVr).
+  split.
+  - apply (continuous_glue _ Pl Pr); try assumption.
+    + exists dl. split; [assumption|]. intros y Hy. apply HL, Hy.
+    + exists dr. split; [assumption|]. intros y Hy. apply HR, Hy.
+  - apply (continuous_glue _ Vl Vr); try assumption.
+    + exists dl. split; [assumption|]. intros y Hy. apply HL, Hy.
+    + exists dr. split; [assumption|]. intros y Hy. apply HR, Hy.
+Qed.
